@@ -6,6 +6,7 @@ import re
 import shutil
 
 import lib
+import c17
 from lib import cbool, clist
 
 REQ = ("From Coq Require Import NArith List Bool.\nImport ListNotations.\n"
@@ -795,7 +796,35 @@ def e2e(ck, rng, n_trees, stats, d_inc, d_exc, thorough):
             if below:
                 tg_sets.append((os.path.join(root, *d) if d else root, [".", "/".join(rng.choice(below)[len(d):])]))
             for cwd, tg in tg_sets:
-                runs.append((ti, root, children, cwd, tg, inc, exc, rec, cfgpath))
+                runs.append((ti, root, children, cwd, tg, inc, exc, rec, cfgpath, None))
+        # ---- a working directory that is NOT an ancestor of the target and has a configuration of its own --------------------------
+        # (in it or above it; .pyscn.toml or pyproject.toml; include / exclude / recursive different from what applies to the target).
+        # The files selected depend on the target and on the configuration in force for the TARGET (--config, else the nearest file at
+        # or above it, else the built-in patterns: c17.py_spec_resolve with a working directory that is never consulted), not on
+        # where the command is typed.  Target: the project root and a directory inside it, spelled absolutely and as ../..
+        fbase = os.path.join(base, "e%d" % ti, "elsewhere")
+        fcwd = os.path.join(fbase, "wd")
+        os.makedirs(fcwd, exist_ok=True)
+        layouts = [(lv, st) for lv in ("in", "above") for st in (".pyscn.toml", "pyproject.toml")]
+        tcfgs = [cfgs[0], cfgs[0], cfgs[1]]      # the target without any configuration (twice), and with the tree's own / --config
+        for j, (cfgpath, inc, exc, rec) in enumerate(tcfgs):
+            lv, st = layouts[(2 * ti + j + (ti // 2)) % 4] if not thorough else rng.choice(layouts)
+            fpath = os.path.join(fcwd if lv == "in" else fbase, st)
+            d = () if j == 0 else rng.choice(dirs)
+            target = os.path.join(root, *d) if d else root
+            rel = os.path.relpath(target, fcwd)
+            sps = [target, rel] if (j < 2 or thorough) else [rng.choice([target, rel, rel + "/", target + "/"])]
+            # candidates for the foreign patterns: what changes is the include list, the exclude list, recursive, or all of them
+            cands = []
+            for kind in range(4):
+                kind = (kind + ti + j) % 4
+                finc = rng.choice([i for i in INCLUDES if i and i != d_inc]) if kind in (0, 3) else None
+                fexc = rng.choice([e for e in EXCLUDES if e and e != d_exc]) if kind in (1, 3) else None
+                frec = False if kind in (2, 3) else True
+                cands.append((finc, fexc, frec))
+            for sp in sps:
+                runs.append((ti, root, children, fcwd, [sp], inc, exc, rec, cfgpath,
+                             {"path": fpath, "level": lv, "style": st, "cands": cands, "target_config": cfgpath}))
     # the full pattern syntax from configuration files, on one tree with the same names at depths 0..3, judged from three target levels
     xnames = ["core.py", "Core.py", "spec_core.py", "test_core.py", "conftest.py", "a1.py", "b2.py", "_priv.py", "s.pyi", "mod_test.py", "notes.txt"]
     xfiles = [("F", n) for n in xnames]
@@ -814,20 +843,41 @@ def e2e(ck, rng, n_trees, stats, d_inc, d_exc, thorough):
             "[project]\nname = \"x\"\n\n" if how == "pyproject.toml" else "", pre, json.dumps(inc), json.dumps(exc))
         stats["e2e_config_" + how] = stats.get("e2e_config_" + how, 0) + 1
         for cwd, tg in ((xroot, ["."]), (os.path.join(xroot, "pkg"), ["."]), (xroot, ["pkg/deep"])):
-            runs.append((99, xroot, xchildren, cwd, tg, inc, exc, True, cfg))
+            runs.append((99, xroot, xchildren, cwd, tg, inc, exc, True, cfg, None))
             stats["e2e_full_syntax_runs"] = stats.get("e2e_full_syntax_runs", 0) + 1
-    # specification for every run
-    items, defs, seen = [], [], set()
-    for ti, root, children, cwd, tg, inc, exc, rec, cfgpath in runs:
+    # which configuration is in force for a run: the rule of C17 (--config, else the nearest file at or above the target, else none),
+    # read by c17.py_spec_resolve; for the selection of files the working directory is never consulted (its chain is passed empty)
+    def in_force(root, cwd, tg, cfgpath, own, foreign):
+        if not foreign:
+            return own
+        explicit = bool(cfgpath) and os.path.basename(cfgpath) not in (".pyscn.toml", "pyproject.toml")
+        depth = len([p for p in os.path.relpath(abs_loc(cwd, tg[0]), root).split("/") if p not in (".", "")])
+        at_root = "none" if (not cfgpath or explicit) else ("pyscn" if os.path.basename(cfgpath) == ".pyscn.toml" else "tool")
+        src, _ = c17.py_spec_resolve({"explicit": "file" if explicit else None, "target": ["none"] * depth + [at_root, "none"], "cwd": ["none"]})
+        if src == "SDefaults":
+            return (d_inc, d_exc, True)
+        if src[0] == "SExplicit" or (src[0] == "SFromTarget" and src[1] == depth):
+            return own
+        raise RuntimeError("e2e: unexpected configuration source %r" % (src,))
+
+    # specification for every run; for a run from a foreign working directory also what would be selected if that directory's
+    # configuration were (wrongly) applied: the candidate that changes the selection is the one written
+    items, alt_items, defs, seen = [], [], [], set()
+    for ti, root, children, cwd, tg, inc, exc, rec, cfgpath, foreign in runs:
         if ti not in seen:
             seen.add(ti)
             defs.append("Definition w%d := %s." % (ti, cnode(world_node(root, children))))
+        inc, exc, rec = in_force(root, cwd, tg, cfgpath, (inc, exc, rec), foreign)
         items.append("run_spec w%d %s %s %s %s %s" % (ti, cstrs([p for p in cwd.split("/") if p]), clist([cspath(t) for t in tg]),
                                                       cbool(rec), cstrs(inc), cstrs(exc)))
-    out = lib.coq_eval("C18_e2e", REQ, "\n".join(defs) + "\nEval vm_compute in %s.\n" % clist(items))
-    specs = lib.parse_coq_values(out)[0]
+        for finc, fexc, frec in (foreign["cands"] if foreign else []):
+            alt_items.append("run_spec w%d %s %s %s %s %s" % (ti, cstrs([p for p in cwd.split("/") if p]), clist([cspath(t) for t in tg]),
+                                                          cbool(frec), cstrs(finc or d_inc), cstrs(fexc or d_exc)))
+    out = lib.coq_eval("C18_e2e", REQ, "\n".join(defs) + "\nEval vm_compute in %s.\nEval vm_compute in %s.\n" % (clist(items), clist(alt_items)))
+    specs, alts = lib.parse_coq_values(out)[:2]
+    alts = list(alts)
     nviol = 0
-    for (ti, root, children, cwd, tg, inc, exc, rec, cfgpath), spec in zip(runs, specs):
+    for (ti, root, children, cwd, tg, inc, exc, rec, cfgpath, foreign), spec in zip(runs, specs):
         spec = sorted({loc_str(x) for x in spec})
         rep = os.path.join(cwd, ".pyscn")
         shutil.rmtree(rep, ignore_errors=True)
@@ -836,9 +886,27 @@ def e2e(ck, rng, n_trees, stats, d_inc, d_exc, thorough):
         if cfgpath:
             with open(cfgpath, "w") as f:
                 f.write(cfg_texts[cfgpath])
+        ftext = None
+        if foreign:
+            mine, alts = alts[:len(foreign["cands"])], alts[len(foreign["cands"]):]
+            differs = [sorted({loc_str(x) for x in a}) != spec for a in mine]
+            pick = differs.index(True) if True in differs else 0
+            finc, fexc, frec = foreign["cands"][pick]
+            pre = "tool.pyscn." if foreign["style"] == "pyproject.toml" else ""
+            ftext = "%s[%sanalysis]\nrecursive = %s\n%s%s" % (
+                "[project]\nname = \"elsewhere\"\n\n" if foreign["style"] == "pyproject.toml" else "", pre, "true" if frec else "false",
+                ("include_patterns = %s\n" % json.dumps(finc)) if finc else "", ("exclude_patterns = %s\n" % json.dumps(fexc)) if fexc else "")
+            with open(foreign["path"], "w") as f:
+                f.write(ftext)
+            stats["e2e_foreign_cwd_runs"] = stats.get("e2e_foreign_cwd_runs", 0) + 1
+            stats["e2e_foreign_cwd_config_would_change_the_selection"] = stats.get("e2e_foreign_cwd_config_would_change_the_selection", 0) + (1 if True in differs else 0)
+            k = "e2e_foreign_cwd_%s_%s_target_%s" % (foreign["level"], foreign["style"].strip("."), "without_config" if not cfgpath else ("explicit" if explicit else "own_config"))
+            stats[k] = stats.get(k, 0) + 1
         rc, so, se = lib.pyscn(args, cwd)
         if cfgpath:
             os.remove(cfgpath)
+        if foreign:
+            os.remove(foreign["path"])
         data = None
         rdir = os.path.join(rep, "reports")
         if os.path.isdir(rdir):
@@ -850,13 +918,18 @@ def e2e(ck, rng, n_trees, stats, d_inc, d_exc, thorough):
         stats["e2e_runs"] += 1
         replay = {"kind": "e2e", "tree": children, "root": root, "cwd": cwd, "args": args, "config": cfg_texts[cfgpath] if cfgpath else None, "config_file": cfgpath,
                   "spec": spec}
+        where = ""
+        if foreign:
+            replay.update(working_directory_config_file=foreign["path"], working_directory_config=ftext)
+            where = "; the working directory is not above the target: the configuration file %s it (%s) says nothing about this target" % (
+                "above" if foreign["level"] == "above" else "in", foreign["path"])
         if data is None:
             if spec:
                 nviol += 1
                 if nviol <= 3:
                     replay["stderr"] = se[-600:]
-                    ck.violation("pyscn %s (cwd %s) produced no report although %d files are to be analysed: %s" % (
-                        " ".join(args), cwd, len(spec), se.strip()[-200:]), replay)
+                    ck.violation("pyscn %s (cwd %s) produced no report although %d files are to be analysed: %s%s" % (
+                        " ".join(args), cwd, len(spec), se.strip()[-200:], where), replay)
             else:
                 stats["e2e_empty"] += 1
             continue
@@ -866,10 +939,10 @@ def e2e(ck, rng, n_trees, stats, d_inc, d_exc, thorough):
             nviol += 1
             if nviol <= 3:
                 replay.update(files_in_report=files, total_files=total)
-                ck.violation("pyscn %s (cwd %s): report covers %d files, summary.total_files = %d, specification selects %d; wrongly analysed %s, missing %s"
+                ck.violation("pyscn %s (cwd %s): report covers %d files, summary.total_files = %d, specification selects %d; wrongly analysed %s, missing %s%s"
                              % (" ".join(args), cwd, len(files), total, len(spec),
                                 [os.path.relpath(x, root) for x in sorted(set(files) - set(spec))[:4]],
-                                [os.path.relpath(x, root) for x in sorted(set(spec) - set(files))[:4]]), replay)
+                                [os.path.relpath(x, root) for x in sorted(set(spec) - set(files))[:4]], where), replay)
     stats["disagreements"] += nviol
 
 
@@ -1083,7 +1156,11 @@ def main(tier):
                 "the same file must be selected through every target above it; all decided against spec_list (proved = sel_spec), "
                 "implementation list compared with the model list; e2e: pyscn analyze --json --select complexity with default patterns and "
                 "with patterns of both syntaxes from -c / .pyscn.toml / pyproject.toml (pyscn analyze has no pattern flags), the full-syntax "
-                "lists judged from the project root, from pkg and for the target pkg/deep. "
+                "lists judged from the project root, from pkg and for the target pkg/deep; every tree also from a working directory that is not "
+                "above the target and has a configuration of its own (in it / above it x .pyscn.toml / pyproject.toml; its include list, exclude "
+                "list, recursive or all three differ, chosen so that applying it would change the selection), the target without any "
+                "configuration (root and a directory inside, spelled absolutely and as ../..) and with its own / a --config configuration: "
+                "the patterns in force are those of the target's configuration (rule of C17 with the working directory never consulted), else the built-in ones. "
                 "distinct = distinct (tree, cwd, targets, patterns, recursive)" % (
                     5 if thorough else 4, "alone, before and after every other atom, and in triples" if thorough else "alone and before and after each of 13 core atoms",
                     len(LATTICE_NAMES), len(LATTICE_SLASHLESS), len(LATTICE_PATHS)),
@@ -1091,6 +1168,7 @@ def main(tier):
                                    error_cases=stats["error_cases"], spelling_groups=stats.get("spelling_groups", 0),
                                    e2e_runs=stats["e2e_runs"], e2e_empty=stats["e2e_empty"],
                                    e2e_full_syntax_runs=stats.get("e2e_full_syntax_runs", 0),
+                                   **{k: v for k, v in sorted(stats.items()) if k.startswith("e2e_foreign_cwd")},
                                    lattice_patterns=len(LATTICE_SLASHLESS) + len(LATTICE_PATHS), lattice_target_pairs=stats.get("lattice_target_pairs", 0),
                                    known_class_separator_cases=stats.get("known_class_separator_cases", 0),
                                    unit_class_separator_skipped=stats.get("unit_class_separator_skipped", 0),
